@@ -51,12 +51,12 @@ func checkC05(c *Ctx) {
 	var calls []pcall
 	for _, fn := range withAnon(hc) {
 		eachInstr(fn, func(_ *ssa.BasicBlock, _ int, in ssa.Instruction) {
-			if cc := callOf(in); cc != nil && calleeFn(cc) == pipe {
+			if g, args := methodCall(callOf(in)); g == pipe && len(args) == 3 {
 				inGo := fn != hc
 				if _, isGo := in.(*ssa.Go); isGo {
 					inGo = true
 				}
-				calls = append(calls, pcall{in, cellKey(cc.Args[1]), cellKey(cc.Args[2]), inGo})
+				calls = append(calls, pcall{in, cellKey(args[1]), cellKey(args[2]), inGo})
 			}
 		})
 	}
@@ -71,10 +71,11 @@ func checkC05(c *Ctx) {
 			return
 		}
 		eachInstr(f, func(_ *ssa.BasicBlock, _ int, x ssa.Instruction) {
-			cc := callOf(x)
-			if cc == nil || calleeFn(cc) != pipe {
+			pf, pargs := methodCall(callOf(x))
+			if pf != pipe || len(pargs) != 3 {
 				return
 			}
+			cc := &ssa.CallCommon{Args: pargs}
 			arg := func(v ssa.Value) ssa.Value {
 				if prm, ok := stripConv(v).(*ssa.Parameter); ok {
 					if idx := paramIndex(f, prm); idx >= 0 && idx < len(g.Call.Args) {
@@ -194,6 +195,13 @@ func checkC05(c *Ctx) {
 			nput++
 			site := fmt.Sprintf("%s put#%d", fnKey(fn), nput)
 			arg := call.Call.Args[0]
+			// `if usePool { buf = getBuffer() } ... if usePool { putBuffer(buf) }`: of the merged values only those that
+			// can arrive under the condition of the put count
+			if ph, isPhi := arg.(*ssa.Phi); isPhi {
+				if es := feasiblePhiEdges(ph, call.Block()); len(es) == 1 {
+					arg = es[0]
+				}
+			}
 			gc, own := arg.(*ssa.Call)
 			if !own || !isCallToFn(gc, getB) {
 				// allow a phi-free local that is exactly the getBuffer result
@@ -218,6 +226,9 @@ func checkC05(c *Ctx) {
 				case *ssa.Phi:
 					// buf = getBuffer() merged with the caller's buf: uses of the phi
 					for _, rr := range *y.Referrers() {
+						if cl, ok := rr.(*ssa.Call); ok && cl == call {
+							continue
+						}
 						if cl, ok := rr.(*ssa.Call); ok && (isCallTo(cl, "io.CopyBuffer") || isBuiltin(cl, "len")) {
 							uses = append(uses, cl)
 						} else if _, isDbg := rr.(*ssa.DebugRef); !isDbg {
@@ -301,6 +312,11 @@ func checkC05(c *Ctx) {
 						startGo = in
 					}
 				}
+				eachInstr(f, func(_ *ssa.BasicBlock, _ int, x ssa.Instruction) {
+					if isCallToFn(x, pipe) {
+						startGo = in
+					}
+				})
 			}
 		})
 		if startGo == nil {
@@ -473,7 +489,7 @@ func checkC05(c *Ctx) {
 	c.Rule("R9", "connection objects are not recycled: no value of a type implementing net.Conn is put into a sync.Pool (its other holders - the opposite direction, the deferred Close calls - would act on an unrelated session)")
 	checkNoPooledConn(c, "R9")
 	c.Rule("R8", "a session is bound to the host it is connected to (shared with C06.R1/R5): the host whose removal closes the session, and whose counters it changes, is the host every dial of the session goes to - otherwise removing another host cuts a healthy stream in the middle")
-	c.withAlias(map[string]string{"R1": "R8", "R5": "R8", "R2": "", "R3": "", "R4": "", "R6": "", "R7": "", "R8": "", "R9": "", "R10": "", "R11": "", "R12": "", "R13": ""}, func() { checkC06(c) })
+	c.withAlias(map[string]string{"R1": "R8", "R5": "R8", "R2": "", "R3": "", "R4": "", "R6": "", "R7": "", "R8": "", "R9": "", "R10": "", "R11": "", "R12": "", "R13": "", "R14": ""}, func() { checkC06(c) })
 }
 
 // cellKey resolves a connection value through single-assignment local cells / captured variables by name.
@@ -641,6 +657,14 @@ func checkNoDiscardingSockopt(c *Ctx, rule string) {
 					return
 				}
 				calls[name] = true
+				// deadlines on client and backend connections are the business of the timed wrapper alone, which renews
+				// them on every call: a deadline planted from elsewhere (a drain that wants idle clients gone) fires in a
+				// relay's blocked Read, and the relay takes the timeout for the end of that direction - the backend sees
+				// an end of stream the client never sent and later client bytes are dropped
+				if (name == "SetReadDeadline" || name == "SetWriteDeadline" || name == "SetDeadline") && rel != "proc/internal/net" {
+					bad = name + " outside the timed connection wrapper"
+					badAt = in.Pos()
+				}
 				if name == "SetLinger" {
 					arg := cc.Args[len(cc.Args)-1]
 					if k, isC := constInt(arg); !isC || k >= 0 {
@@ -659,6 +683,10 @@ func checkNoDiscardingSockopt(c *Ctx, rule string) {
 			}
 			sort.Strings(names)
 			if bad != "" {
+				if strings.Contains(bad, "Deadline") {
+					c.Fail(rule, "connection calls in "+fnKey(fn), badAt, bad+": the deadline fires in the blocked Read of a relay direction, which ends that direction as if the peer had closed - the stream is cut in the middle of a session")
+					continue
+				}
 				c.Fail(rule, "connection calls in "+fnKey(fn), badAt, bad+": closing the socket then discards the bytes that Write has accepted but the kernel has not sent yet - the peer loses the tail of the stream and sees a reset instead of end-of-stream")
 			} else {
 				c.OK(rule, "connection calls in "+fnKey(fn), fn.Pos(), "calls: "+strings.Join(names, ",")+" - none discards queued data on close")
